@@ -209,6 +209,16 @@ def genLoop (t p n : Nat) : Nat → St → St
     | (.raised, s1) => endTask (cleanup s1 t p) t true
     | (.value v, s1) => genLoop t p n r (scopedUpdate s1 p v)
 
+/-- the prologue of `_async_ref`: `running_task = async_refs.get(pname)`; register if `None`, else —
+unless it is this very task — cancel the registered one (and, patch, register all the same) -/
+def registerTask (c : Cfg) (s0 : St) (t p : Nat) : St :=
+  match s0.asyncRefs p with
+  | none => { s0 with asyncRefs := upd s0.asyncRefs p (some t) }
+  | some u =>
+    if u = t then s0 else
+      let s' := cancelTask s0 u
+      if c.registerAlways then { s' with asyncRefs := upd s'.asyncRefs p (some t) } else s'
+
 /-- first step of the task: src `Parameters._async_ref` from the top -/
 def stepStart (c : Cfg) (s : St) (t : Nat) (x : Task) : St :=
   if x.mustCancel then
@@ -220,13 +230,7 @@ def stepStart (c : Cfg) (s : St) (t : Nat) (x : Task) : St :=
   else
     let p := x.param
     let s0 := s.setTask t { x with pc := .running }
-    -- running_task = async_refs.get(pname); register if None, else cancel the other one
-    let s1 := match s0.asyncRefs p with
-      | none => { s0 with asyncRefs := upd s0.asyncRefs p (some t) }
-      | some u =>
-        if u = t then s0 else
-          let s' := cancelTask s0 u
-          if c.registerAlways then { s' with asyncRefs := upd s'.asyncRefs p (some t) } else s'
+    let s1 := registerTask c s0 t p
     match x.kind with
     | .coro =>
       if c.awaitInside then
